@@ -21,7 +21,8 @@ RULE = ('ha-tie: C01 generators (random, constructed quotient ties, zero-vote/ca
         'definite seats drop; members of a reported tie are not worse off. votes: one party gets +1 / +10% / x2 / +1e30 votes, the others keep '
         'theirs: its seats do not drop whenever the second result is tie-free. sole-winner: random ranked / approval / score profiles '
         '(3..5 candidates, 2..7 ballot types, truncation), every rule of the property; whenever evaluate(votes, 1) == [w], every single-ballot '
-        'upward move of w (one place up, to the top; approve w; raise w\'s score) must again give [w]. non-trivial = a tie in either result / '
+        'upward move of w (one place up, to the top; approve w; raise w\'s score) and every added ballot ranking w first (a bullet vote for all rules; '
+        'also longer ballots for the additive rules) must again give [w]. non-trivial = a tie in either result / '
         'a binding cap / previous gains (house, votes), or the move changes some candidate\'s standing (sole-winner); distinct by case hash')
 PARTIAL = ['Copeland / minimax / Schulze / Bucklin monotonicity: stated (C17_*_full_statement), decided per explored case by the relational checker, not proved',
            'vote monotonicity with zero-vote parties or when the larger run ends in a tie or with caps exhausted: relational checker only',
@@ -125,6 +126,18 @@ RANKED_RULES = ['plurality', 'borda', 'borda0', 'dowdall', 'geometric', 'modifie
                 'bucklin', 'oklahoma', 'copeland_raw', 'copeland_2o', 'minimax_winvotes', 'minimax_margins', 'minimax_pwo', 'schulze']
 
 
+ADDITIVE = {'plurality', 'borda', 'borda0', 'dowdall', 'geometric', 'modified_borda', 'fixed_top', 'sequence'}
+
+
+def evalreg_cands(prof):
+    out = []
+    for b, _ in prof:
+        for k in b:
+            if k not in out:
+                out.append(k)
+    return out
+
+
 def ranked_evaluator(rule):
     import votelib.evaluate.core as core, votelib.convert as conv, votelib.component.rankscore as rs
     import votelib.evaluate.condorcet as cd, votelib.evaluate.sequential as seq
@@ -147,10 +160,13 @@ def gen_ranked_profile(rng):
     m = rng.randint(3, 5)
     ids = list(range(1, m + 1))
     prof = {}
+    short = rng.random() < 0.3          # every ballot truncated: an added ballot can be longer than all existing ones
     for _ in range(rng.randint(2, 7)):
         perm = ids[:]
         rng.shuffle(perm)
-        if rng.random() < 0.35:
+        if short:
+            perm = perm[:rng.randint(1, m - 1)]
+        elif rng.random() < 0.35:
             perm = perm[:rng.randint(1, m)]
         prof[tuple(perm)] = prof.get(tuple(perm), 0) + rng.randint(1, 4)
     return [[list(b), w] for b, w in prof.items()]
@@ -199,7 +215,7 @@ def sole_winner_ranked(ctx, stream, count, rng):
     bad = n = 0
     for _ in range(count):
         prof = gen_ranked_profile(rng)
-        rule = rng.choice(RANKED_RULES)
+        rule = rng.choice(RANKED_RULES + ['modified_borda', 'modified_borda', 'sequence', 'fixed_top'])
         r0 = common.call_impl(lambda: ranked_evaluator(rule).evaluate(py_ranked(prof), 1), 10)
         ctx.evaluations += 1
         ctx.dist['stream:' + stream] += 1
@@ -211,6 +227,32 @@ def sole_winner_ranked(ctx, stream, count, rng):
             ctx.dist['sole:no-sole-winner'] += 1
             continue
         ctx.dist['sole:' + rule] += 1
+        # a new ballot that ranks the winner first: a bullet vote for every rule; for the additive rules also ballots
+        # that go on to rank (some of) the others (for pairwise rules and Bucklin those change the contests among the
+        # others - the participation failure of such methods, not a monotonicity defect; see DESIGN.md C17)
+        others = [k for k in evalreg_cands(prof) if k != w]
+        added = [[w]]
+        if rule in ADDITIVE:
+            rng.shuffle(others)
+            added += [[w] + others, [w] + others[:rng.randint(0, len(others))], [w] + others[::-1], [w] + others[1:] + others[:1]]
+        for nb in added:
+            p2 = [[list(b), wt] for b, wt in prof]
+            for x in p2:
+                if x[0] == nb:
+                    x[1] += 1
+                    break
+            else:
+                p2.append([nb, 1])
+            n += 1
+            r1 = common.call_impl(lambda: ranked_evaluator(rule).evaluate(py_ranked(p2), 1), 10)
+            case = dict(kind='sole-added', rule=rule, profile=prof, new_ballot=nb, winner=w)
+            ctx.nontrivial.add(common.case_hash(case))
+            got = sole_winner(r1[1]) if r1[0] == 'ok' else None
+            if got != w:
+                bad += 1
+                ctx.checker_false += 1
+                ctx.report(stream, case, str(r1[1:]), 'n/a',
+                           '%s: sole winner %s no longer the sole winner after ADDING the ballot %s: %s' % (rule, cname(w), nb, r1[1:]))
         for bi, (b, _) in enumerate(prof):
             for b2 in upward_moves(b, w):
                 p2 = moved(prof, bi, b2)
@@ -305,6 +347,15 @@ def run_corpus_case(ctx, c, stream='corpus'):
         if ra[0] == 'ok' and rb[0] == 'ok' and not rb[1][1] and rb[1][0].get(p, 0) < ra[1][0].get(p, 0):
             ctx.checker_false += 1
             ctx.report(stream, c, '%s | %s' % (ra[1], rb[1]), 'n/a', 'vote monotonicity: party %d loses seats after gaining votes' % p)
+    elif k == 'sole-added':
+        ctx.evaluations += 1
+        ev = ranked_evaluator(c['rule'])
+        p2 = [[list(b), w] for b, w in c['profile']] + [[list(c['new_ballot']), 1]]
+        r0 = common.call_impl(lambda: ev.evaluate(py_ranked(c['profile']), 1), 10)
+        r1 = common.call_impl(lambda: ev.evaluate(py_ranked(p2), 1), 10)
+        if r0[0] == 'ok' and sole_winner(r0[1]) == c['winner'] and not (r1[0] == 'ok' and sole_winner(r1[1]) == c['winner']):
+            ctx.checker_false += 1
+            ctx.report(stream, c, str(r1[1:]), 'n/a', '%s: sole winner lost after adding a ballot that ranks it first' % c['rule'])
     elif k == 'sole-ranked':
         ctx.evaluations += 1
         ev = ranked_evaluator(c['rule'])
@@ -334,7 +385,7 @@ def explore(ctx, widen=1):
     house_checks(ctx, 'house-random', itertools.chain(c01.gen_random(rng, ctx.n(1500, 20000) * widen), c01.gen_ties(rng, ctx.n(600, 8000) * widen),
                                                       c01.gen_zero_caps(rng, ctx.n(300, 3000) * widen)))
     votes_checks(ctx, 'votes-random', itertools.chain(c01.gen_random(rng, ctx.n(1500, 20000) * widen), c01.gen_ties(rng, ctx.n(600, 8000) * widen)), rng)
-    sole_winner_ranked(ctx, 'sole-winner-ranked', ctx.n(3000, 30000) * widen, rng)
+    sole_winner_ranked(ctx, 'sole-winner-ranked', ctx.n(8000, 60000) * widen, rng)
     sole_winner_cardinal(ctx, 'sole-winner-cardinal', ctx.n(1500, 15000) * widen, rng)
 
 
